@@ -801,6 +801,13 @@ Handler::ArgResult
       auto  subArgHandler = static_cast< detail::TypedArgSubGroup*>( p_arg_hdl)->obj();
       ++ai;
 
+      // the sub-group evaluates words of the same source: values from a file
+      // or the environment variable don't count against the cardinality there
+      // either
+      const common::ResetAtExit< uint8_t>  reset_sub_read_mode(
+         subArgHandler->mReadMode, subArgHandler->mReadMode);
+      subArgHandler->mReadMode = mReadMode;
+
       // we may only advance the main iterator if the argument is (still)
       // handled by the sub-argument
       auto  subAI( ai);
